@@ -227,7 +227,7 @@ def pipeline : List Site → List Site := pipelineP Ports.std
 
 /-! ## the tls directive (flags only) -/
 
-inductive TLSBase | none | off | email | selfSigned | manual | block
+inductive TLSBase | none | off | email | selfSigned | manual | block | load
   deriving Repr, DecidableEq, Inhabited
 
 structure TLSVariant where
@@ -249,8 +249,17 @@ def applyTLS (v : TLSVariant) (c : Site) : Site :=
     let c := match b with
       | .email => { c with email := testEmail }
       | .selfSigned => { c with email := b!"self_signed", selfSigned := true }
-      | .manual => { c with manual := true }
+      | .manual => { c with manual := true }                       -- `tls cert key`
+      | .load => { c with manual := true }                         -- `tls { load dir }`
       | _ => c
     { c with noRedirect := c.noRedirect || v.noRedirect, onDemand := c.onDemand || v.onDemand }
+
+/-- setupTLS on a site block with SEVERAL `tls` directives (written one after the other, or spliced in by `import`): the
+setup function runs once, its `for c.Next()` loop takes the directives in order on the SAME config — a flag set by an earlier
+directive stays set (there is no assignment of `false` to Manual, SelfSigned, NoRedirect anywhere in the loop) — and
+`tls off` returns from the function at once, so directives after it are not read. -/
+def applyTLSs : List TLSVariant → Site → Site
+  | [], c => c
+  | v :: vs, c => if v.base == .off then applyTLS v c else applyTLSs vs (applyTLS v c)
 
 end Casket.AutoHTTPS
